@@ -443,9 +443,10 @@ func replayLeaf(line []byte, a *Acc) {
 	nontriv, cases := 0, 0
 	defer func() { mxj.SetAttrPrefix("-"); mxj.LeafUseDotNotation(false) }()
 	for _, c := range l.Cs {
-		prefixes := []string{"@", ""}
+		// prefixes under which no key of the alphabet is an attribute / under which "-x" is one
+		prefixes := []string{"@", "", "-y", "-xx"}
 		if len(c.Ak) > 0 {
-			prefixes = []string{"-"}
+			prefixes = []string{"-", "-x"}
 		}
 		exp := make([]string, len(c.R))
 		expP := make([]string, len(c.R))
@@ -517,4 +518,27 @@ func init() {
 		rule: "one case = (Map, key, set of sub-key conditions, field separator) for ValuesForKey/ValueForKey, (Map, key) for PathsForKey/PathForKeyShortest, (Map, path, conditions, separator) for ValuesForPath with sub-keys; non-trivial = expected result non-empty"})
 	register("leaf", &family{replay: replayLeaf, serial: true,
 		rule: "one case = (Map, no-attr flag, dot-notation flag, attribute prefix) for LeafNodes+LeafPaths+LeafValues, each leaf path resolved through ValuesForPath when the resolution clause applies; non-trivial = Map has at least one leaf"})
+}
+
+// wide variants: the same replays under several SetArraySize settings (serial: package option)
+func replayVfpWide(line []byte, a *Acc) {
+	defer mxj.SetArraySize(0)
+	for _, n := range []int{0, 33, 64, 1000} {
+		mxj.SetArraySize(n)
+		replayVfp(line, a)
+	}
+}
+func replayVfkWide(line []byte, a *Acc) {
+	defer mxj.SetArraySize(0)
+	for _, n := range []int{0, 33, 64, 1000} {
+		mxj.SetArraySize(n)
+		replayVfk(line, a)
+	}
+}
+
+func init() {
+	register("vfpw", &family{replay: replayVfpWide, serial: true,
+		rule: "as vfp, on Maps/lists wider than the initial result capacity, each case under SetArraySize 32 (default), 33, 64, 1000; cases counted once per setting"})
+	register("vfkw", &family{replay: replayVfkWide, serial: true,
+		rule: "as vfk, on wide Maps, each case under SetArraySize 32, 33, 64, 1000"})
 }
